@@ -159,6 +159,24 @@ def run(ctx, rep):
             for x in gs.effects:
                 if x not in st:
                     fail(rs, ctx, g, x.node, f"setter has an extra effect ({x.kind})")
+            # the absent-field callback: called exactly when the scan raised and a callback was given
+            cb = None
+            for p_ in g.params()[1:]:
+                cb = ("param", p_)
+            cbcalls = [c for c in gs.calls if cb is not None and c.fn == cb]
+            if cb is not None:
+                okcb = len(cbcalls) == 1
+                if okcb:
+                    lits = [(a, p) for a, p in cbcalls[0].cond]
+                    from .lib import is_none_atom
+                    isn = [is_none_atom(cb)(a) for a, p in lits]
+                    raised = any(a[0] == "raises" and p for a, p in lits)
+                    guard = [(x, p) for x, (a, p) in zip(isn, lits) if x is not None]
+                    okcb = raised and len(guard) == 1 and (guard[0][0] != guard[0][1])  # `cb is None` must be False
+                if not okcb:
+                    fail(rs, ctx, g, g.node, "the absent-field callback must be invoked exactly when no line matched and a callback was supplied "
+                                             "(`except RegexNotMatchError: if callback is not None: callback()`): otherwise a missing Resolution is "
+                                             "not reported / an absent optional field calls None")
     # which setter raises MissingRequiredField through its callback
     for n, (g, gs) in setters.items():
         for c in gs.calls:
